@@ -806,7 +806,10 @@ class Server():
 
             if responder.ended:
                 requestant = self.reqs[ca]
-                if requestant.persisted:
+                # response with neither chunking nor content-length is only
+                # delimited by closing the connection
+                delimited = responder.chunked or responder.length is not None
+                if requestant.persisted and delimited:
                     if requestant.parser is None:  # reuse
                         requestant.makeParser()  # resets requestant parser
                 else:  # not persistent so close and remove requestant and responder
